@@ -7,6 +7,11 @@ func VerifC05Fee() {
 	vCommittee(n)
 	deployFS()
 	owner := vAcct("owner")
+	ownerIsNode := vParam(2) == 3 // the owner is the first Alphabet node itself: one fee leg is a self-transfer,
+	// visible only in the payment notifications
+	if ownerIsNode {
+		owner = vMemberAcct(0)
+	}
 	fee, alias, bal := vInt("containerFee"), vInt("aliasFee"), vInt("ownerBalance")
 	vAssume(fee >= 0 && fee <= 1000000 && alias >= 0 && alias <= 1000000 && bal >= 0 && bal <= 30000000)
 	vAssume(alphaOn("netmap", "setConfig", []byte("id"), []byte("ContainerFee"), fee))
@@ -47,17 +52,27 @@ func VerifC05Fee() {
 	vRequire(done, "container-created")
 	if done {
 		vCoverIf(bal == per*n && per > 0, "balance-exactly-at-the-threshold")
-		vAssert(balanceOf(owner) == preOwner-per*n, "C05/owner-debited-exactly-fee-times-nodes")
-		if n > 1 {
-			vAssert(balanceOf(first) == preFirst+per && balanceOf(last) == preLast+per, "C05/each-alphabet-node-credited-exactly-the-fee")
+		if ownerIsNode { // the owner pays every node including itself: its balance drops by the other n-1 shares
+			vAssert(balanceOf(owner) == preOwner-per*(n-1), "C05/owner-debited-exactly-fee-times-nodes")
+			if n > 1 {
+				vAssert(balanceOf(last) == preLast+per, "C05/each-alphabet-node-credited-exactly-the-fee")
+			}
 		} else {
-			vAssert(balanceOf(first) == preFirst+per, "C05/each-alphabet-node-credited-exactly-the-fee")
+			vAssert(balanceOf(owner) == preOwner-per*n, "C05/owner-debited-exactly-fee-times-nodes")
+			if n > 1 {
+				vAssert(balanceOf(first) == preFirst+per && balanceOf(last) == preLast+per, "C05/each-alphabet-node-credited-exactly-the-fee")
+			} else {
+				vAssert(balanceOf(first) == preFirst+per, "C05/each-alphabet-node-credited-exactly-the-fee")
+			}
 		}
 		vAssert(cnt.(int) == 1 && okGet, "C05/container-stored-in-the-same-transaction")
 		tx := vEvents("balance", "TransferX")
 		vAssert(len(tx) == n, "C05/one-TransferX-per-alphabet-node")
 		for _, ev := range tx {
 			vAssert(vEq(ev[0].([]byte), owner) && ev[2].(int) == per, "C05/fee-transfers-carry-the-true-amount")
+		}
+		if ownerIsNode {
+			return
 		}
 	} else {
 		vCoverIf(alpha && bal == per*n-1, "balance-one-below-the-threshold")
